@@ -429,6 +429,9 @@ func serverUpgraderRules(c *Ctx, prop string) {
 				if len(whs.F) == 2 && fold.Show(whs.F[0]) != fold.Show(hs.F[0]) {
 					problems = append(problems, "the subprotocol sent differs from the one returned")
 				}
+				if len(whs.F) == 2 && fold.Show(whs.F[1]) != fold.Show(hs.F[1]) {
+					problems = append(problems, "the extensions sent ("+fold.Show(whs.F[1])+") differ from the ones returned ("+fold.Show(hs.F[1])+") "+desc)
+				}
 			}
 		}
 		// pool discipline on every path
